@@ -62,8 +62,8 @@ CKSmall == <<"GROUNDING", "CONDITIONAL_EFFECTS_REMOVING", "DISJUNCTIVE_CONDITION
              "TRAJECTORY_CONSTRAINTS_REMOVING", "STATE_INVARIANTS_REMOVING", "TIMED_TO_SEQUENTIAL", "MA_CENTRALIZATION">>
 CKs == IF AllCK THEN CKAll ELSE CKSmall
 \* compilation kinds pipelines are made of
-CKPipe == <<"QUANTIFIERS_REMOVING", "CONDITIONAL_EFFECTS_REMOVING", "GROUNDING", "STATE_INVARIANTS_REMOVING",
-            "TRAJECTORY_CONSTRAINTS_REMOVING", "DURATIVE_ACTIONS_TO_PROCESSES", "DISJUNCTIVE_CONDITIONS_REMOVING">>
+CKPipe == <<"QUANTIFIERS_REMOVING", "GROUNDING", "STATE_INVARIANTS_REMOVING", "TRAJECTORY_CONSTRAINTS_REMOVING",
+            "DURATIVE_ACTIONS_TO_PROCESSES", "CONDITIONAL_EFFECTS_REMOVING", "DISJUNCTIVE_CONDITIONS_REMOVING">>
 
 R(mode, m, ck, pk, og, ag, cks, call) ==
    [mode |-> mode, f |-> KindOf(m), ck |-> ck, pk |-> pk, og |-> og, ag |-> ag, cks |-> cks, call |-> call, grp |-> Grp(m)]
